@@ -63,6 +63,22 @@ def random_unicode(rng, n):
 # lexer's rule, and whatever the action then does with the matched text sees a non-ASCII spelling.
 CASE_TWINS = {"s": ["\u017f"], "S": ["\u017f"], "i": ["\u0131", "\u0130"], "I": ["\u0131", "\u0130"], "k": ["\u212a"], "K": ["\u212a"]}
 
+def source_names():
+    """identifier-like string constants of the library's own parser / AST modules (function tables, keyword lists, special cases): whatever name the
+    code singles out is worth trying as a function and as a field — the dictionary comes from the code under test, re-read on every run"""
+    import ast as pyast, inspect, re
+    from odata_query import grammar, ast as oast, typing as otyping
+    out = []
+    for mod in (grammar, oast, otyping):
+        try:
+            tree = pyast.parse(inspect.getsource(mod))
+        except Exception:  # noqa
+            continue
+        for n in pyast.walk(tree):
+            if isinstance(n, pyast.Constant) and isinstance(n.value, str) and re.fullmatch(r"[A-Za-z_][A-Za-z0-9_]*(\.[A-Za-z_][A-Za-z0-9_]*)?", n.value) and len(n.value) <= 40:
+                out.append(n.value)
+    return list(dict.fromkeys(out))
+
 def unicode_case_variants(text):
     """every single-letter respelling of `text` with a Unicode case twin, outside string literals"""
     out, inside = [], False
